@@ -330,11 +330,38 @@ public:
         return make_rcp<const Poly>(vars, std::move(d));
     }
 
+    // A polynomial without terms, or with a single term whose exponents are
+    // all zero, is a constant. Constants are equal regardless of their
+    // variables (see __eq__), so __hash__ and compare must ignore them too.
+    bool is_constant() const
+    {
+        if (poly_.dict_.empty())
+            return true;
+        if (poly_.dict_.size() != 1)
+            return false;
+        for (auto e : poly_.dict_.begin()->first)
+            if (e != 0)
+                return false;
+        return true;
+    }
+
     int compare(const Basic &o) const override
     {
         SYMENGINE_ASSERT(is_a<Poly>(o))
 
         const Poly &s = down_cast<const Poly &>(o);
+
+        const bool c1 = is_constant(), c2 = s.is_constant();
+        if (c1 or c2) {
+            if (c1 != c2)
+                return c1 ? -1 : 1;
+            if (poly_.dict_.size() != s.poly_.dict_.size())
+                return poly_.dict_.size() < s.poly_.dict_.size() ? -1 : 1;
+            if (poly_.dict_.empty())
+                return 0;
+            return unified_compare(poly_.dict_.begin()->second,
+                                   s.poly_.dict_.begin()->second);
+        }
 
         if (vars_.size() != s.vars_.size())
             return vars_.size() < s.vars_.size() ? -1 : 1;
@@ -424,7 +451,7 @@ public:
             v1.resize(vars_.size(), 0);
             v2.resize(o_.vars_.size(), 0);
             if (poly_.dict_.begin()->first == v1
-                || o_.poly_.dict_.begin()->first == v2)
+                && o_.poly_.dict_.begin()->first == v2)
                 return true;
             return false;
         } else if (0 == poly_.dict_.size() && 0 == o_.poly_.dict_.size()) {
